@@ -1,6 +1,7 @@
 import WzVerif.Driver.Proto
 import WzVerif.Model.Wire
 import WzVerif.Model.Containers
+import WzVerif.Driver.PyPrelude
 namespace Wz.Driver.C08
 open Wz Wz.Proto Wz.Wire Wz.Hdr
 
@@ -284,6 +285,6 @@ def handle : Handler
   | "cmd", all :: probes :: n :: rest => orBad (n.toNat?.bind fun n => handleCMD all probes n rest)
   | "hs", all :: probes :: init :: ops => orBad (handleHS all probes init ops)
   | "eh", all :: probes :: init :: ops => orBad (handleEH all probes init ops)
-  | _, _ => none
+  | cmd, args => Wz.Driver.PyPrelude.handle cmd args  -- `pre.*`: primitives of Util/PyPrelude
 
 end Wz.Driver.C08
